@@ -113,8 +113,18 @@ func main() {
 	case "plans":
 		// prints the enumerated plans of a fault-enumeration property, one JSON object per line
 		p := harness.Lookup(*prop)
-		if p == nil || p.Enumerate == nil {
+		if p == nil {
 			os.Exit(2)
+		}
+		if p.Enumerate == nil {
+			// seeded property: the plans of the first 64 runs
+			for run := 0; run < 64; run++ {
+				pl := harness.SeededPlan(p, *tier, seed, run)
+				pl.Prop = p.ID
+				b, _ := json.Marshal(pl)
+				fmt.Println(string(b))
+			}
+			return
 		}
 		for _, pl := range p.Enumerate(*tier, seed) {
 			pl.Prop = p.ID
